@@ -163,7 +163,7 @@ fn related(rng: &mut Rng, a: f64) -> f64 {
         5 => a - 700.0 - 300.0 * u,
         6 => a - 40.0 * u,
         7 => a - u,
-        8 => a - 1e-15,
+        8 => a - *rng.pick(&[1e-15, 1e-12, 1e-6, 1e-3, 0.01, 0.02, 0.05, 0.1]) * (0.5 + u),
         _ => return lp(rng),
     };
     b
@@ -279,6 +279,16 @@ pub fn gen(tier: &str, rng: &mut Rng, out: &mut Vec<String>) {
         "inf", "-inf", "NaN", "1e-300", "-1e-300",
     ] {
         out.push(format!("checked {}", v));
+    }
+    // dense sweep of one period of the fast exponential (the polynomial on (-1, 0] in base-2 units, see
+    // theorem fastexp_reduction): the measured relative error appears as the err<=… tag buckets
+    let sweep = if tier == "thorough" { 8192 } else { 512 };
+    for j in 0..sweep {
+        let x = -std::f64::consts::LN_2 * (j as f64 + 0.5) / sweep as f64;
+        out.push(format!("fexp {}", fe(x)));
+        if j % 8 == 0 {
+            out.push(format!("fexp {}", fe(x - 37.0 * std::f64::consts::LN_2)));
+        }
     }
     for i in 0..n {
         let line = match i % 20 {
